@@ -39,6 +39,13 @@ func genConfig(r *vk.RNG, a *app.App, sid string) app.Config {
 	return cfg
 }
 
+// genConfigDiff adds the engine options that the differential checks may vary (both drivers get the same).
+func genConfigDiff(r *vk.RNG, a *app.App, sid string) app.Config {
+	cfg := genConfig(r, a, sid)
+	cfg.ResetOnEmptyInput = r.Chance(1, 5)
+	return cfg
+}
+
 // diffComponent names what differs between two outputs.
 func diffComponent(a, b string) string {
 	al, bl := strings.Split(a, "\n"), strings.Split(b, "\n")
@@ -121,7 +128,7 @@ func runC07(c *vk.Ctx) {
 		}
 		r := c.RNG(key)
 		a := app.Generate(r, c07Profile(r))
-		cfg := genConfig(r, a, "ses1")
+		cfg := genConfigDiff(r, a, "ses1")
 		if a.Trans["nor"] != nil && r.Chance(1, 3) {
 			cfg.Language = "nor"
 		}
